@@ -15,6 +15,7 @@ from ..prng import sub
 from .c01 import draw_fmt, fmt_tag
 
 ID = "C03"
+PROBES = ['files_compared']  # reach probes: counters that must be non-zero in a run (a zero is printed and recorded)
 LEVEL = "exploration"
 BUDGET = {"quick": 1000, "thorough": 40000}
 WALL = {"quick": 300, "thorough": 3400}
